@@ -152,4 +152,19 @@ def Sys.run (sys : Sys) (now : Nat) (sched : List Nat) : Sys := sched.foldl (fun
 
 def Sys.quiescent (sys : Sys) : Bool := sys.threads.all Thread.finished
 
+/-- schedules with a moving clock (what the `sched` suite drives): thread `i` makes its next call; the one-second clock
+    ticks; thread `i` makes its next call with the clock reading from before the last tick (the call had read the clock,
+    the tick came, other calls ran, then its map operation ran) -/
+inductive Tok
+  | grant (i : Nat)
+  | tick
+  | stale (i : Nat)
+deriving DecidableEq, Repr
+
+def Sys.runToks (sys : Sys) (now : Nat) : List Tok → Sys × Nat
+  | [] => (sys, now)
+  | .grant i :: rest => Sys.runToks (sys.step now i) now rest
+  | .tick :: rest => Sys.runToks sys (now + 1) rest
+  | .stale i :: rest => Sys.runToks (sys.step (now - 1) i) now rest
+
 end Memc
